@@ -105,29 +105,18 @@ def run(ctx: Ctx) -> None:
     # pairwise test
     ct = BR.methods['_calculate_test']
     i, j, mat = ct.positional_params()[1:4]
-    env = {}
-    for st in ct.body:
-        if isinstance(st, ast.Assign) and isinstance(st.targets[0], ast.Name):
-            env[st.targets[0].id] = st.value
+    from ..core import inline_locals
+    from ..pattern import find as _find
 
-    def inline(e):
-        import copy
-
-        class T(ast.NodeTransformer):
-            def visit_Name(self, n):
-                if n.id in env and n.id not in (i, j, mat):
-                    return T().visit(copy.deepcopy(env[n.id]))
-                return n
-
-        return T().visit(copy.deepcopy(e))
-
-    rets = [n for n in walk_no_nested(ct.node) if isinstance(n, ast.Return)]
-    rname = unparse(rets[-1].value) if rets else ''
-    tests = [n for n in walk_no_nested(ct.node) if isinstance(n, ast.Assign) and unparse(n.targets[0]) == rname and 'finfo' not in unparse(n.value)]
-    ok = False
-    got = ''
-    if len(tests) == 1:
-        e = inline(tests[0].value)
+    bt = _find(ct.node, """
+if __R <= 0:
+    return __MAX
+return __T
+""")
+    ok = None
+    got = 'shape not recognised - expected: a guard on the variance of the difference, then the ratio'
+    if bt is not None:
+        e = inline_locals(ct.node, bt['__T'][1])
         sym = {f'{mat}[{i}, {i}]': sp.Symbol('vii'), f'{mat}[{j}, {j}]': sp.Symbol('vjj'), f'{mat}[{i}, {j}]': sp.Symbol('vij'), f'{mat}[{j}, {i}]': sp.Symbol('vij'),
                f'self.data.betaValues[{i}]': sp.Symbol('bi'), f'self.data.betaValues[{j}]': sp.Symbol('bj')}
         try:
@@ -135,9 +124,11 @@ def run(ctx: Ctx) -> None:
             got = str(g)
             want = (sp.Symbol('bi') - sp.Symbol('bj')) / sp.sqrt(sp.Symbol('vii') + sp.Symbol('vjj') - 2 * sp.Symbol('vij'))
             ok = equal(g, want)
+            r = ToSympy(hook=lambda n, ts: sym.get(unparse(n)))(inline_locals(ct.node, bt['__R'][1]))
+            ok = ok and equal(r, sp.Symbol('vii') + sp.Symbol('vjj') - 2 * sp.Symbol('vij'))
         except AnalysisError as ex:
-            got = str(ex)
-    ctx.add('C08.R1', 'bioResults._calculate_test', ok, ct, f'pairwise test = {got}' + ('' if ok else '; expected (b_i - b_j)/sqrt(v_ii + v_jj - 2 v_ij)'), got)
+            got, ok = f'shape not recognised - {ex}', None
+    ctx.add('C08.R1', 'bioResults._calculate_test', ok, ct, (f'pairwise test = {got}' + ('' if ok else '; expected (b_i - b_j)/sqrt(v_ii + v_jj - 2 v_ij)')) if ok is not None else got, got)
     pv = prog.func('results', 'calc_p_value')
     t = pv.positional_params()[0]
     rets = [n for n in walk_no_nested(pv.node) if isinstance(n, (ast.Assign, ast.Return)) and n.value is not None and 'cdf' in unparse(n.value)]
@@ -185,8 +176,13 @@ else:
         for n in walk_no_nested(cs.node):
             if isinstance(n, ast.For) and any(x in setters for x in ast.walk(n)):
                 reads |= set(re.findall(r'self\.data\.(\w*varCovar)', unparse(n)))
+        own = {f'{fam}varCovar'}
+        if not ok and reads == own:
+            ok = None  # the block reads its own matrix; only its spelling is not the one the rule knows
         ctx.add('C08.R2', f'_calculate_stats:{FAMNAME[fam]}', ok, (cs.file, line),
-                f'{FAMNAME[fam]} block: std err_i = sqrt(V_ii) and correlation = D^-1 V D^-1 of its own matrix' if ok else f'{FAMNAME[fam]} block is not the std-err / correlation block of its own matrix (matrices read: {sorted(reads)})',
+                f'{FAMNAME[fam]} block: std err_i = sqrt(V_ii) and correlation = D^-1 V D^-1 of its own matrix' if ok
+                else (f'{FAMNAME[fam]} block is not the std-err / correlation block of its own matrix (matrices read: {sorted(reads)})' if ok is False
+                      else f'shape not recognised - expected: std err_i = sqrt(V_ii) (max float when negative) for every parameter, correlation = D^-1 V D^-1, all from {sorted(own)[0]}'),
                 detail='' if ok else str(sorted(reads)))
     B = prog.cls('results', 'Beta')
     for fam in FAMILIES:
